@@ -98,6 +98,31 @@ def _returns_offset_plus(g, model):
     return True
 
 
+def decode_aliases(f):
+    """Local names bound to a bound method  <expr>.decode  in f."""
+    out = set()
+    for a in walk_no_nested(f):
+        if isinstance(a, ast.Assign) and isinstance(a.value, ast.Attribute) and a.value.attr == 'decode':
+            for t in a.targets:
+                out.update(flow.target_names(t))
+    return out
+
+
+def is_type_decode_call(n, aliases=()):
+    """X.decode(data, offset[, ..]) -- a BER/DER type-level decode (>= 2 arguments, the first
+    not a string constant) -- or a call through a local alias of such a bound method."""
+    if not isinstance(n, ast.Call):
+        return False
+    nargs = len(n.args) + len([k for k in n.keywords if k.arg in ('offset',)])
+    if nargs < 2 or (n.args and isinstance(n.args[0], ast.Constant)):
+        return False
+    if isinstance(n.func, ast.Attribute) and n.func.attr == 'decode':
+        return True
+    if isinstance(n.func, ast.Name) and n.func.id in aliases:
+        return True
+    return False
+
+
 def classify_while(loop, f, model, cg, sentinel_ok=None):
     """sentinel_ok(call) -> bool : does that type-level decode call satisfy C08.R1?"""
     test = loop.test
@@ -188,8 +213,8 @@ def classify_while(loop, f, model, cg, sentinel_ok=None):
             return 'T-BOUND', False, why
 
     # ---------------- T-TLV: element decode in the loop body with checked sentinel
-    dec_calls = [n for s in top for n in [s] + list(walk_no_nested(s)) if isinstance(n, ast.Call) and isinstance(n.func, ast.Attribute)
-                 and n.func.attr == 'decode' and len(n.args) >= 2]
+    aliases = decode_aliases(f)
+    dec_calls = [n for s in top for n in [s] + list(walk_no_nested(s)) if is_type_decode_call(n, aliases)]
     top_dec = [s for s in top if isinstance(s, ast.Assign) and isinstance(s.value, ast.Call) and s.value in dec_calls]
     fors = [s for s in top if isinstance(s, ast.For)]
     if top_dec and not fors:
